@@ -132,6 +132,16 @@ func runC05(c *Ctx) {
 						}
 						return true
 					})
+					// tags written by a helper the clause delegates to (hand-written layouts moved out of line)
+					direct := map[string]bool{}
+					for _, nm := range tg {
+						direct[nm] = true
+					}
+					for _, ev := range writeEvents(c, info, cc, 0) {
+						if ev.tag != "" && !direct[ev.tag] {
+							tg = append(tg, ev.tag)
+						}
+					}
 					callsStr := len(core.CallsTo(info, cc, false, ggmlPkg+".writeGGUFString")) > 0
 					callsArr := len(core.CallsTo(info, cc, false, ggmlPkg+".writeGGUFArray")) > 0
 					ok, detail := false, ""
@@ -149,7 +159,7 @@ func runC05(c *Ctx) {
 						detail = "written as array of " + elemTag + ", which the array reader reads as " + arrayR[elemTag] + ", Go element type " + want
 						// hand-written string arrays: each element = u64 length + bytes
 						if !callsArr && ok && want == "string" {
-							seq := writeSeq(info, cc)
+							seq := evTypes(writeEvents(c, info, cc, 0))
 							if strings.Join(seq, ",") != "uint32,uint32,uint64,uint64,[]byte" {
 								ok, detail = false, "string array element layout is "+strings.Join(seq, ",")+", want tag,tag,u64 count,(u64 len,bytes)*"
 							}
@@ -210,19 +220,13 @@ func runC05(c *Ctx) {
 	// ------------------------------------------------------------------ R2
 	c.Rule("C05-R2", "tensor-info and header field sequences agree: ggufWriteTensorInfo writes u64 name length, name bytes, u32 dims, u64 per dimension (reversed), u32 kind, u64 offset, and the decoder's tensor loop reads string, u32, u64*dims, u32, u64 into Name, dims, Shape, Kind, Offset; the header is magic, u32 version, u64 tensors, u64 kvs")
 	if f := c.Fn("C05-R2", ggmlPkg, "ggufWriteTensorInfo"); f != nil {
-		seq := writeSeq(info, f.Body)
+		evs := writeEvents(c, info, f.Body, 0)
+		seq := evTypes(evs)
 		c.Check("C05-R2", f.Key()+" field sequence", c.Pos(f.Decl), strings.Join(seq, ",") == "uint64,[]byte,uint32,uint64,uint32,uint64", "found "+strings.Join(seq, ","))
 		// operands: len(t.Name), t.Name, len(t.Shape), t.Shape[..reversed..], t.Kind, t.Offset
 		var ops []string
-		for _, call := range core.CallsTo(info, f.Body, false, "encoding/binary.Write") {
-			s := ""
-			ast.Inspect(call.Args[2], func(n ast.Node) bool {
-				if se, ok := n.(*ast.SelectorExpr); ok && s == "" {
-					s = se.Sel.Name
-				}
-				return true
-			})
-			ops = append(ops, s)
+		for _, ev := range evs {
+			ops = append(ops, ev.op)
 		}
 		c.Check("C05-R2", f.Key()+" field operands", c.Pos(f.Decl), strings.Join(ops, ",") == "Name,Name,Shape,Shape,Kind,Offset", "found "+strings.Join(ops, ","))
 		// dimensions are written reversed: index expression len-i-1
@@ -231,6 +235,33 @@ func runC05(c *Ctx) {
 			if ix, ok := n.(*ast.IndexExpr); ok && selName(ix.X) == "Shape" {
 				if be, ok := ast.Unparen(ix.Index).(*ast.BinaryExpr); ok && be.Op == token.SUB {
 					rev = true
+				}
+				// or the index of a loop that counts down from len(Shape)-1
+				if id, ok := ast.Unparen(ix.Index).(*ast.Ident); ok {
+					ast.Inspect(f.Body, func(m ast.Node) bool {
+						fs, isFor := m.(*ast.ForStmt)
+						if !isFor || !within(fs.Body, ix) || fs.Init == nil || fs.Post == nil {
+							return true
+						}
+						init, isAs := fs.Init.(*ast.AssignStmt)
+						post, isInc := fs.Post.(*ast.IncDecStmt)
+						if !isAs || !isInc || len(init.Lhs) != 1 || len(init.Rhs) != 1 || post.Tok != token.DEC {
+							return true
+						}
+						lv, isLv := init.Lhs[0].(*ast.Ident)
+						pv, isPv := ast.Unparen(post.X).(*ast.Ident)
+						if !isLv || !isPv || info.ObjectOf(lv) != info.ObjectOf(id) || info.ObjectOf(pv) != info.ObjectOf(id) {
+							return true
+						}
+						if be, isB := ast.Unparen(init.Rhs[0]).(*ast.BinaryExpr); isB && be.Op == token.SUB {
+							if call, isC := ast.Unparen(be.X).(*ast.CallExpr); isC && core.CalleeName(info, call) == "builtin.len" && selName(call.Args[0]) == "Shape" {
+								if k, isK := core.ConstInt(info, be.Y); isK && k == 1 {
+									rev = true
+								}
+							}
+						}
+						return true
+					})
 				}
 			}
 			return true
@@ -355,7 +386,7 @@ func runC05(c *Ctx) {
 	}
 
 	// ------------------------------------------------------------------ R3 / R4
-	c.Rule("C05-R3", "alignment agrees: writer and reader obtain it from the same key with the same default constant, and both pad before every tensor with ggufPadding(current offset, alignment); ggufPadding is one of the accepted formulas for 'distance to the next multiple' (valid for every positive alignment, not only powers of two)")
+	c.Rule("C05-R3", "alignment agrees: writer and reader obtain it from the same key with the same default constant, and both pad before every tensor with ggufPadding(current offset, alignment); ggufPadding, read as a decision tree over r = offset%align, returns a form that is zero on every leaf reached with r == 0 and align-r (or (align-r)%align) on every leaf reached with 0 < r < align — valid for every positive alignment, not only powers of two")
 	c.Rule("C05-R4", "the running offset includes padding: every update of the accumulator in WriteGGUF's tensor-info loop derives from the padded t.Offset plus t.Size(), and t.Offset is the accumulator plus ggufPadding of the accumulator")
 	type al struct {
 		key string
@@ -522,35 +553,37 @@ func runC05(c *Ctx) {
 		// the value compared with stat.Size() is the offset returned by ggml.Decode
 		ok := false
 		for _, cb := range g.CondBlocks() {
-			ast.Inspect(cb.Cond, func(x ast.Node) bool {
-				be, isB := x.(*ast.BinaryExpr)
-				if !isB || be.Op != token.EQL {
-					return true
-				}
-				// the file size: stat.Size(), or a local holding it; on either side
-				isSize := func(e ast.Expr) bool {
-					for _, y := range expand(g, e, 1) {
-						if len(core.CallsTo(sinfo, y, false, "io/fs.FileInfo.Size")) == 1 {
-							return true
-						}
-					}
-					return false
-				}
-				if !isSize(be.Y) {
-					if !isSize(be.X) {
+			for _, cnd := range expand(g, cb.Cond, 2) { // the test itself, or a named boolean it consults
+				ast.Inspect(cnd, func(x ast.Node) bool {
+					be, isB := x.(*ast.BinaryExpr)
+					if !isB || be.Op != token.EQL {
 						return true
 					}
-					be = &ast.BinaryExpr{X: be.Y, Op: be.Op, Y: be.X}
-				}
-				if p := core.PathOf(sinfo, be.X); p.Valid() {
-					for _, as := range g.AssignsTo(p.Root) {
-						if len(core.CallsTo(sinfo, as.Node, false, ggmlPkg+".Decode")) == 1 {
-							ok = true
+					// the file size: stat.Size(), or a local holding it; on either side
+					isSize := func(e ast.Expr) bool {
+						for _, y := range expand(g, e, 1) {
+							if len(core.CallsTo(sinfo, y, false, "io/fs.FileInfo.Size")) == 1 {
+								return true
+							}
+						}
+						return false
+					}
+					if !isSize(be.Y) {
+						if !isSize(be.X) {
+							return true
+						}
+						be = &ast.BinaryExpr{X: be.Y, Op: be.Op, Y: be.X}
+					}
+					if p := core.PathOf(sinfo, be.X); p.Valid() {
+						for _, as := range g.AssignsTo(p.Root) {
+							if len(core.CallsTo(sinfo, as.Node, false, ggmlPkg+".Decode")) == 1 {
+								ok = true
+							}
 						}
 					}
-				}
-				return true
-			})
+					return true
+				})
+			}
 		}
 		c.Check("C05-R5", f.Key()+" single-model test uses the decoder's end offset", c.Pos(f.Decl), ok, "ggufLayers must compare the offset returned by ggml.Decode with the file size")
 	}
@@ -567,6 +600,74 @@ func writeSeq(info *types.Info, n ast.Node) []string {
 			}
 			out = append(out, s)
 		}
+	}
+	return out
+}
+
+// wev is one binary.Write reached from a node, with package-local writer helpers expanded in place.
+type wev struct {
+	typ string // Go type of the value written
+	tag string // ggufType constant written, if the value is one
+	op  string // first selector name in the operand ("" if none); for an expanded helper, that of the call's arguments
+}
+
+// writeEvents lists the binary.Write calls under n in source order; a call to a non-generic function of
+// package fs/ggml that itself writes (to depth 2) is replaced by that function's events.
+func writeEvents(c *Ctx, info *types.Info, n ast.Node, depth int) []wev {
+	firstSel := func(e ast.Node) string {
+		s := ""
+		ast.Inspect(e, func(x ast.Node) bool {
+			if se, ok := x.(*ast.SelectorExpr); ok && s == "" {
+				s = se.Sel.Name
+			}
+			return true
+		})
+		return s
+	}
+	var out []wev
+	for _, call := range core.Calls(n, false) {
+		name := core.CalleeName(info, call)
+		if name == "encoding/binary.Write" && len(call.Args) == 3 {
+			ev := wev{op: firstSel(call.Args[2])}
+			if t := info.Types[call.Args[2]].Type; t != nil {
+				ev.typ = t.String()
+				if ev.typ == "[]uint8" {
+					ev.typ = "[]byte"
+				}
+			}
+			if nm, _, is := tagConst(info, call.Args[2]); is {
+				ev.tag = nm
+			}
+			out = append(out, ev)
+			continue
+		}
+		if depth >= 2 || !strings.HasPrefix(name, ggmlPkg+".") {
+			continue
+		}
+		h := c.P.LookupFunc(ggmlPkg, strings.TrimPrefix(name, ggmlPkg+"."))
+		if h == nil || h.Decl == nil || h.Decl.Type.TypeParams != nil {
+			continue
+		}
+		op := ""
+		for _, a := range call.Args {
+			if op == "" {
+				op = firstSel(a)
+			}
+		}
+		for _, ev := range writeEvents(c, h.Info(), h.Body, depth+1) {
+			if ev.op == "" {
+				ev.op = op
+			}
+			out = append(out, ev)
+		}
+	}
+	return out
+}
+
+func evTypes(evs []wev) []string {
+	var out []string
+	for _, e := range evs {
+		out = append(out, e.typ)
 	}
 	return out
 }
@@ -601,37 +702,163 @@ func sortedKeys2(m map[string]int64) []string {
 	return ks
 }
 
-// acceptedPaddingFormula: the body is `return (align - offset%align) % align`.
+// acceptedPaddingFormula: the body computes the distance from offset to the next multiple of align.
+// The body is read as a decision tree over r = offset%align (single-assignment locals are substituted):
+// every return reached when r == 0 must be a form that is zero there (0, r, -r, (align-r)%align) and
+// every return reached when 0 < r < align must be align-r or (align-r)%align; the tests on the way
+// may compare r with 0 or 1 only. `return (align - offset%align) % align` is the one-leaf tree.
 func acceptedPaddingFormula(f *core.Func) (bool, string) {
-	rs := core.SoleReturn(f.Info(), f.Body)
-	if rs == nil || len(rs.Results) != 1 {
-		return false, "body is not a single return (besides inert statements)"
-	}
-	form := core.ExprString(rs.Results[0])
-	var names []string
+	info := f.Info()
+	var params []types.Object
 	for _, fl := range f.Type.Params.List {
 		for _, n := range fl.Names {
-			names = append(names, n.Name)
+			params = append(params, info.Defs[n])
 		}
 	}
-	if len(names) != 2 {
-		return false, form
+	if len(params) != 2 {
+		return false, "not a function of (offset, align)"
 	}
-	off, al := names[0], names[1]
-	isID := func(e ast.Expr, n string) bool { id, ok := ast.Unparen(e).(*ast.Ident); return ok && id.Name == n }
-	outer, ok := ast.Unparen(rs.Results[0]).(*ast.BinaryExpr)
-	if !ok || outer.Op != token.REM || !isID(outer.Y, al) {
-		return false, form
+	var render func(e ast.Expr, depth int) string
+	render = func(e ast.Expr, depth int) string {
+		switch x := ast.Unparen(e).(type) {
+		case *ast.Ident:
+			o := info.ObjectOf(x)
+			switch o {
+			case params[0]:
+				return "off"
+			case params[1]:
+				return "al"
+			}
+			if v, isV := o.(*types.Var); isV && depth < 4 {
+				if rhs, idx, n := singleDef(info, f.Body, v); n == 1 && idx == -1 {
+					return render(rhs, depth+1)
+				}
+			}
+			return "?" + x.Name
+		case *ast.BasicLit:
+			return x.Value
+		case *ast.UnaryExpr:
+			return x.Op.String() + render(x.X, depth)
+		case *ast.BinaryExpr:
+			return "(" + render(x.X, depth) + x.Op.String() + render(x.Y, depth) + ")"
+		case *ast.CallExpr:
+			// a conversion between integer types keeps the value
+			if len(x.Args) == 1 && info.Types[x.Fun].IsType() {
+				return render(x.Args[0], depth)
+			}
+		}
+		return "?" + core.ExprString(e)
 	}
-	sub, ok := ast.Unparen(outer.X).(*ast.BinaryExpr)
-	if !ok || sub.Op != token.SUB || !isID(sub.X, al) {
-		return false, form
+	const R = "(off%al)"
+	zero := map[string]bool{"0": true, R: true, "-" + R: true, "((al-" + R + ")%al)": true}
+	pos := map[string]bool{"(al-" + R + ")": true, "((al-" + R + ")%al)": true}
+	// truth of a test under r == 0 / under 0 < r < al; ok=false if it is not a test of r against 0 or 1
+	decide := func(cond ast.Expr, rZero bool) (val, ok bool) {
+		be, isB := ast.Unparen(cond).(*ast.BinaryExpr)
+		if !isB {
+			return false, false
+		}
+		x, y, op := render(be.X, 0), render(be.Y, 0), be.Op
+		if y == R {
+			x, y = y, x
+			switch op {
+			case token.LSS:
+				op = token.GTR
+			case token.GTR:
+				op = token.LSS
+			case token.LEQ:
+				op = token.GEQ
+			case token.GEQ:
+				op = token.LEQ
+			}
+		}
+		if x != R || (y != "0" && y != "1") {
+			return false, false
+		}
+		k := int64(0)
+		if y == "1" {
+			k = 1
+		}
+		if rZero {
+			switch op {
+			case token.EQL:
+				return 0 == k, true
+			case token.NEQ:
+				return 0 != k, true
+			case token.LSS:
+				return 0 < k, true
+			case token.LEQ:
+				return 0 <= k, true
+			case token.GTR:
+				return false, true
+			case token.GEQ:
+				return 0 >= k, true
+			}
+			return false, false
+		}
+		// r >= 1, and r may be 1 or more
+		switch {
+		case op == token.GTR && k == 0, op == token.NEQ && k == 0, op == token.GEQ:
+			return true, true
+		case op == token.EQL && k == 0, op == token.LEQ && k == 0, op == token.LSS:
+			return false, true
+		}
+		return false, false
 	}
-	rem, ok := ast.Unparen(sub.Y).(*ast.BinaryExpr)
-	if !ok || rem.Op != token.REM || !isID(rem.X, off) || !isID(rem.Y, al) {
-		return false, form
+	var leaf func(stmts []ast.Stmt, rZero bool) (string, bool)
+	leaf = func(stmts []ast.Stmt, rZero bool) (string, bool) {
+		for _, st := range stmts {
+			switch x := st.(type) {
+			case *ast.ReturnStmt:
+				if len(x.Results) != 1 {
+					return "return without a value", false
+				}
+				return render(x.Results[0], 0), true
+			case *ast.AssignStmt:
+				blank := true
+				for _, l := range x.Lhs {
+					if id, isID := l.(*ast.Ident); !isID || id.Name != "_" {
+						blank = false
+					}
+				}
+				if x.Tok != token.DEFINE && !blank {
+					return "assignment " + core.ExprString(x.Lhs[0]), false
+				}
+			case *ast.DeclStmt, *ast.EmptyStmt:
+			case *ast.IfStmt:
+				if x.Init != nil {
+					if as, isAs := x.Init.(*ast.AssignStmt); !isAs || as.Tok != token.DEFINE {
+						return "if with a side effect", false
+					}
+				}
+				v, ok := decide(x.Cond, rZero)
+				if !ok {
+					return "test " + core.ExprString(x.Cond) + " is not a comparison of offset%align with 0", false
+				}
+				var branch []ast.Stmt
+				switch {
+				case v:
+					branch = x.Body.List
+				case x.Else != nil:
+					if bl, isBl := x.Else.(*ast.BlockStmt); isBl {
+						branch = bl.List
+					} else {
+						branch = []ast.Stmt{x.Else}
+					}
+				}
+				if r, done := leaf(branch, rZero); done || r != "" {
+					return r, done
+				}
+			default:
+				return "statement with effects", false
+			}
+		}
+		return "", false
 	}
-	return true, form
+	z, okZ := leaf(f.Body.List, true)
+	p, okP := leaf(f.Body.List, false)
+	form := "aligned offset: " + z + "; unaligned offset: " + p
+	return okZ && okP && zero[z] && pos[p], form
 }
 
 // lenOfParam: e is conv(len(p)) for the idx-th parameter p of f.
